@@ -8,7 +8,7 @@ import c16gen as G
 import proggen
 
 ID = "C16"
-PROP_FILES = ["Props/C16.v"]
+PROP_FILES = ["Props/C16.v", "Props/C01_classify_embed.v"]  # the two models of hoist / classification (TreeCache here, Model/Classify for C01) commute with forgetting the caches
 RUN_FILES = ["Run/C16Run.v"]
 RULE = ("metamorphic on the real code (model-free verdict: image of the program vs image of the transformed program, incl. success/failure and base) "
         "plus model correspondence judged in Coq.  (1) '.repeat': generated bodies of 1-4 statements, nesting <= 3, count 0-40 written as a literal, "
